@@ -97,6 +97,12 @@ func encodeCharset(names []int32) ([]byte, error) {
 		return nil, errors.New("invalid charset (missing .notdef)")
 	}
 	names = names[1:]
+	for _, name := range names {
+		// SIDs and CIDs are stored as 16-bit numbers
+		if name < 0 || name > 0xFFFF {
+			return nil, errors.New("invalid charset (too many glyph names)")
+		}
+	}
 
 	// find runs of consecutive glyph names
 	runs := []int{0}
